@@ -351,6 +351,9 @@ class InlineGraph(Kernel):
             return SObj(skip_id(av[0].t))
 
         def c_dep(e, p, av, kw):
+            # tracer.depends_on(x, predecessor) is used under its contract "x depends on predecessor": a pure function of these two arguments. Extra arguments (shared visited sets,
+            # caches) make the answer for one graph input depend on the questions asked for the others.
+            e.oblige("callee-pre:depends_on is asked with exactly (function, graph input): no state shared between the questions", p, z3.BoolVal(len(av) == 2 and not kw), "callee-pre")
             return SBool(self.dep(av[0].t, av[1].t))
 
         eng.contracts.update({"transform": SContract(c_transform), "_skip_id": SContract(c_skip), "tracer.depends_on": SContract(c_dep)})
